@@ -501,6 +501,57 @@ func runC08(tier, replay string) {
 	run.Finish()
 }
 
+// selectForC03 reports, for property C03, selector lookups that both Go and the builder accept but for which
+// the builder reports another type (or notifies the recorder of another object) than Go assigns to the emitted selector.
+func selectForC03(run *ev.Run) (lookups int64) {
+	cfg := "INIT Init\nNEXT Next\nCONSTANTS\n  TN = {\"R\",\"A\",\"B\"}\n  MaxFields = 1\n  QChoices = {{}}\n  PlainTypes = {\"int\", \"string\"}\nINVARIANTS Laws Emit\nCHECK_DEADLOCK FALSE\n"
+	var cases []selCase
+	res, err := tlc.Run(tlc.Opts{SpecDir: SpecDir, Module: "Select", Cfg: cfg, Workers: 4, Heavy: true, Timeout: 20 * time.Minute,
+		OnJSON: func(l string) {
+			var x selCase
+			if json.Unmarshal([]byte(l), &x) == nil && len(x.G) > 0 {
+				cases = append(cases, x)
+			}
+		}})
+	if err != nil {
+		run.Infra(err)
+	}
+	if res.Violation {
+		run.Infra(fmt.Errorf("Select.tla violates its laws:\n%s", res.ErrText))
+	}
+	w := newSelWorld()
+	for _, c := range cases {
+		w.realise(c)
+		for sel, forms := range c.Res {
+			for _, form := range []string{"v", "a", "p"} {
+				s := forms[form]
+				if s.K != "field" && s.K != "method" {
+					continue
+				}
+				g := w.member(form, sel, false)
+				lookups++
+				if g.kind != "field" && g.kind != "method" {
+					continue
+				}
+				want := w.objectOf(c, s)
+				var wt types.Type
+				if s.K == "field" {
+					wt = want.Type()
+				} else {
+					sig := want.Type().(*types.Signature)
+					wt = types.NewSignatureType(nil, nil, nil, sig.Params(), sig.Results(), false)
+				}
+				if !types.Identical(g.typ, wt) || g.obj != want {
+					run.Fail(fmt.Sprintf("selector-type/%s: go=%s builder=%s", form, s.K, g.kind),
+						fmt.Sprintf("selector %s on a %s operand: the emitted selector denotes the %s %v of type %v in Go; the builder reports type %v and notifies the recorder of %v; graph: %s", sel, form, s.K, want, wt, g.typ, g.obj, selDescribe(c)),
+						map[string]any{"case": c, "sel": sel, "form": form})
+				}
+			}
+		}
+	}
+	return
+}
+
 func ownerStr(s selRes) string {
 	if s.Owner == "" {
 		return ""
